@@ -809,8 +809,11 @@ class List(list, base.Symbolic, pg_typing.CustomTyping):
     if base.treats_as_sealed(self):
       raise base.WritePermissionError('Cannot sort a sealed List.')
     old_values = list(self.sym_values())
-    super().sort(key=key, reverse=reverse)
-    self._update_children_index()
+    try:
+      super().sort(key=key, reverse=reverse)
+    finally:
+      # NOTE: a comparison that raises leaves the list partially reordered.
+      self._update_children_index()
     self._notify_repositioned(old_values)
 
   def reverse(self) -> None:
